@@ -881,3 +881,28 @@ Proof.
   destruct (i =? 6); [unfold hagenbach_bischoff_rounded; apply R; rewrite H; reflexivity|].
   unfold imperiali. rewrite H. reflexivity.
 Qed.
+
+(* ---------------------------------------------------------------- the statements in order-free observations *)
+(* every candidate has the same seats; tie keys correspond one to one with the same members and seats *)
+Definition dict_obs_eq (s s' : list (key * Z)) : Prop :=
+  (forall c, kdget s c = kdget s' c) /\ Forall2 tie_rel (ties_of s) (ties_of s') /\
+  Permutation (plain_of s) (plain_of s') /\ NoDup (map fst (plain_of s)).
+Definition qd_obs (r r' : qd_result) : Prop :=
+  match r, r' with QD_ok s, QD_ok s' => dict_obs_eq s s' | _, _ => r = r' end.
+Definition lr_obs (r r' : lr_result) : Prop :=
+  match r, r' with
+  | LR_ok s, LR_ok s' => dict_obs_eq s s'
+  | LR_err e, LR_err e' => qd_obs e e'
+  | LR_index, LR_index => True
+  | _, _ => False
+  end.
+
+Lemma ok_rel_dict_obs s s' : ok_rel s s' -> dict_obs_eq s s'.
+Proof.
+  intros H. destruct (ok_rel_obs _ _ H) as [A B]. destruct H as (N & P & _).
+  split; [exact A|]. split; [exact B|]. split; [exact P|exact N].
+Qed.
+Lemma qd_rel_obs r r' : qd_rel r r' -> qd_obs r r'.
+Proof. destruct r, r'; simpl; intros H; try reflexivity; try contradiction. apply ok_rel_dict_obs, H. Qed.
+Lemma lr_rel_obs r r' : lr_rel r r' -> lr_obs r r'.
+Proof. destruct r, r'; simpl; intros H; try exact H; [apply ok_rel_dict_obs, H|apply qd_rel_obs, H]. Qed.
